@@ -83,6 +83,22 @@ def run(ctx):
                         own_kw_texts.add(txt)
                 except Exception:
                     rejects += 1
+    # ---- the own alias used as the whole message (`roll(@A)`): normalised to the current message, which prints as the empty text
+    own_msg_texts = set()
+    for fn in ('roll', 'pitch', 'yaw'):
+        for body in (f'{fn}(@A) > 0', f'x < {fn}(@A)', f'b implies {fn}(@A) = 0'):
+            txt = f'globally: no t as A {{{body}}}'
+            try:
+                items.append(('property', txt, pp, dump_property, pp.parse(txt)))
+                kwfam_texts.add(txt)
+                own_msg_texts.add(txt)
+            except Exception:
+                rejects += 1
+        ctl = f'after s as B: t {{{fn}(@B) > 0}} causes u'       # another event's alias: must round-trip
+        try:
+            items.append(('property', ctl, pp, dump_property, pp.parse(ctl)))
+        except Exception:
+            rejects += 1
     for _ in range(60 if ctx.quick else 600):
         k = rng.randrange(1, 5)
         txt = '\n\n'.join(rng.choice(texts) for _ in range(k))
@@ -99,7 +115,7 @@ def run(ctx):
         w = dumper(ast)
         lines.append(dumps([S('printany'), w]))
         inp = {'entry': entry, 'source': src, 'printed': s1}
-        fam = ':own-alias-field-named-like-keyword' if src in own_kw_texts else ''
+        fam = ':own-alias-field-named-like-keyword' if src in own_kw_texts else (':own-alias-as-whole-message' if src in own_msg_texts else '')
         try:
             ast2 = parser.parse(s1)
         except Exception as e:
